@@ -336,6 +336,14 @@ pub fn on_seeded_thread<T: Send>(hseed: u64, f: impl FnOnce() -> T + Send) -> st
 /// thread-per-case isolation off: it costs more than the check itself.
 pub static CASE_THREADS: AtomicBool = AtomicBool::new(true);
 
+/// upper bound on proptest's shrink iterations (checks whose failing cases are expensive lower it)
+pub static MAX_SHRINK_ITERS: std::sync::atomic::AtomicU32 = std::sync::atomic::AtomicU32::new(4096);
+
+thread_local! {
+    /// true while proptest is shrinking a failing case on this thread
+    pub static IS_SHRINKING: std::cell::Cell<bool> = const { std::cell::Cell::new(false) };
+}
+
 pub fn hseed_of(ctx_seed: u64) -> u64 {
     splitmix(ctx_seed ^ 0x68617368)
 }
@@ -388,12 +396,15 @@ pub fn panic_signature(p: &str) -> String {
 
 /// Run `check` on one case (on a fresh, deterministically seeded thread),
 /// converting panics into failures.
-pub fn run_case<C: Sync>(
+pub fn run_case<C: Sync + Serialize>(
     hseed: u64,
     check: &(dyn Fn(&C, &mut Obs) -> Result<(), Fail> + Sync),
     case: &C,
     obs: &mut Obs,
 ) -> Result<(), Fail> {
+    if std::env::var("VERIF_TRACE_CASES").is_ok() {
+        eprintln!("CASE {}", serde_json::to_string(case).unwrap_or_default());
+    }
     let body = || {
         let _ = take_last_panic();
         let mut o = Obs::default();
@@ -518,7 +529,7 @@ where
                     cases: per,
                     failure_persistence: None,
                     rng_seed: RngSeed::Fixed(seed),
-                    max_shrink_iters: 4096,
+                    max_shrink_iters: MAX_SHRINK_ITERS.load(Ordering::Relaxed),
                     max_global_rejects: 65536,
                     ..Config::default()
                 };
@@ -532,6 +543,7 @@ where
                     if stop_all.load(Ordering::Relaxed) && !failed.get() {
                         return Ok(());
                     }
+                    IS_SHRINKING.with(|f| f.set(failed.get()));
                     let mut obs = Obs::default();
                     let r = run_case(hseed, check, &case, &mut obs);
                     let r = match r {
@@ -569,6 +581,7 @@ where
                         }
                     }
                 });
+                IS_SHRINKING.with(|f| f.set(false));
                 if let Err(TestError::Fail(_, shrunk)) = res {
                     stop_all.store(true, Ordering::Relaxed);
                     // re-run the shrunk case for signature and message
